@@ -81,6 +81,9 @@ impl<'a> Visit<'a> for Sites {
         }
       }
     }
+    if ["enable_builders", "no_helpers", "include_all_headers"].contains(&name.as_str()) && m.args.is_empty() {
+      self.add("flags", format!("{name}()"));
+    }
     if name == "unwrap" || name == "expect" {
       let recv = toks(&*m.receiver);
       let short: String = recv.chars().take(60).collect();
